@@ -43,12 +43,43 @@ func main() {
 		xlib.Unreadable("registerBuiltins: only %d setNativeCode calls found", len(native))
 	}
 
-	unwrappers := map[string]bool{"asStringList": true, "pyStrOrListAsList": true}
 	funcs := map[string]*ast.FuncDecl{}
 	for _, d := range b.AST.Decls {
 		if fd, ok := d.(*ast.FuncDecl); ok && fd.Recv == nil {
 			funcs[fd.Name.Name] = fd
 		}
+	}
+	// a helper "unwraps" when its own body (or a helper it calls, two levels deep) asserts or switches on
+	// pyFrozenList / pyFrozenDict - asStringList today, and pyStrOrListAsList through it
+	var mentionsFrozen func(name string, depth int) bool
+	mentionsFrozen = func(name string, depth int) bool {
+		fd := funcs[name]
+		if fd == nil || depth > 2 {
+			return false
+		}
+		found := false
+		ast.Inspect(fd.Body, func(n ast.Node) bool {
+			switch t := n.(type) {
+			case *ast.TypeAssertExpr:
+				if t.Type != nil {
+					if ty := b.Src(t.Type); ty == "pyFrozenList" || ty == "pyFrozenDict" {
+						found = true
+					}
+				}
+			case *ast.CaseClause:
+				for _, e := range t.List {
+					if s := b.Src(e); s == "pyFrozenList" || s == "pyFrozenDict" {
+						found = true
+					}
+				}
+			case *ast.CallExpr:
+				if id, ok := t.Fun.(*ast.Ident); ok && id.Name != name && funcs[id.Name] != nil && mentionsFrozen(id.Name, depth+1) {
+					found = true
+				}
+			}
+			return true
+		})
+		return found
 	}
 	// assertions of one Go function, following calls to other functions of the file that receive `args` whole
 	// (minFunc/maxFunc -> extreme)
@@ -79,7 +110,7 @@ func main() {
 				}
 			case *ast.CallExpr:
 				if id, ok := t.Fun.(*ast.Ident); ok {
-					if unwrappers[id.Name] {
+					if id.Name != name && mentionsFrozen(id.Name, 0) {
 						unwraps = true
 					} else if funcs[id.Name] != nil && id.Name != name {
 						for _, a := range t.Args {
